@@ -581,6 +581,66 @@ def temporal_run_factory(backend):
     return run
 
 
+def narrow_types_run(carve):
+    """Polars: an operator applied to a narrow column (Int8 / Int32 / UInt16 / Float32) with other columns or Python literals
+    gives the value it gives on the same data widened to Int64 / Float64 first (within the precision of the narrow result
+    type) - a Python literal is a 64-bit value, the computation must not silently run in the narrow type of the column"""
+    import math
+    import warnings
+
+    import polars as pl
+
+    from .. import typeuniverse as TU
+    from . import c12
+    from .c13 import _enum_outcome
+
+    pdt = H.pdt
+    T = H.types_mod
+    df = c12.frames().with_columns(hh=pl.Series([0, 1, 2]), f32=pl.Series([0.1, None, 3e38], dtype=pl.Float32), i8=pl.Series([100, 1, None], dtype=pl.Int8), i32=pl.Series([2**30, 1, None], dtype=pl.Int32))
+    t = pdt.Table(df, name="t")
+    WIDE = {"Int32": pdt.Int64(), "Int8": pdt.Int64(), "UInt16": pdt.Int64(), "Float32": pdt.Float64()}
+    lits = {"int": 7, "float": 10.1, "string": "a", "bool": True}
+    n, bad = 0, []
+    with warnings.catch_warnings():
+        warnings.simplefilter("ignore")
+        for opname, op in H.ALL_OPS.items():
+            if isinstance(op, pdt._internal.ops.ops.markers.Marker) or op.ftype != H.Ftype.ELEMENT_WISE or opname in ("rand", "neg", "pow", "exp"):
+                continue
+            for sig in c12.sig_universe(op):
+                names = [type(T.without_const(p)).__name__ for p in sig]
+                if len(sig) > 2 or not any(nm in WIDE and not T.is_const(p) for nm, p in zip(names, sig)) or any(TU.is_null_typed(p) for p in sig):
+                    continue
+                args = c12.mk_args(t, sig, 0)
+                if args is None:
+                    continue
+                args = [lits.get(TU.family(p), a) if T.is_const(p) else a for a, p in zip(args, sig)]
+                wargs = [a.cast(WIDE[nm]) if (nm in WIDE and not T.is_const(p)) else a for a, nm, p in zip(args, names, sig)]
+                res = []
+                for aa in (args, wargs):
+                    try:
+                        out = t >> pdt.mutate(r=H.ColFn(op, *aa)) >> pdt.arrange(t.hh) >> pdt.export(pdt.Polars())
+                        # precision / range: that of the narrow result type when all operands are narrow columns; 64 bit as soon as a Python literal takes part
+                        has_lit = any(T.is_const(a) and not T.is_const(prm) for a, prm in zip(sig, op.trie.best_match(list(sig))[0]))  # literal operands, not const parameters such as round's `decimals`
+                        res.append((out["r"].to_list(), (pl.Float64 if out["r"].dtype.is_float() else pl.Int64) if has_lit and out["r"].dtype.is_numeric() else out["r"].dtype))
+                    except Exception as ex:  # noqa: BLE001
+                        res.append(f"{type(ex).__name__}")
+                n += 1
+                if isinstance(res[0], str) or isinstance(res[1], str):
+                    if res[0] != res[1]:
+                        bad.append(f"{opname}{c12._fmt(sig)}: narrow column {res[0]}, widened {res[1]}")
+                    continue
+                tol = 1e-6 if res[0][1] == pl.Float32 else 1e-12
+                for g, w in zip(res[0][0], res[1][0]):
+                    same = (g is None and w is None) or (g is not None and w is not None and (g == w or (isinstance(g, (int, float)) and not isinstance(g, bool) and isinstance(w, (int, float)) and (math.isfinite(float(w)) or not math.isfinite(float(g)))
+                                                                                               and math.isfinite(float(g)) == math.isfinite(float(w)) and (not math.isfinite(float(w)) or abs(float(g) - float(w)) <= tol * max(abs(float(w)), 1e-300)))))
+                    rng = {pl.Int8: (-2**7, 2**7 - 1), pl.Int16: (-2**15, 2**15 - 1), pl.Int32: (-2**31, 2**31 - 1), pl.UInt16: (0, 2**16 - 1), pl.UInt8: (0, 255), pl.UInt32: (0, 2**32 - 1), pl.Float32: (-3.4e38, 3.4e38)}.get(res[0][1])
+                    overflow = rng is not None and w is not None and isinstance(w, (int, float)) and not isinstance(w, bool) and not (rng[0] <= w <= rng[1])  # outside the range of the (narrow) result type: excluded value domain
+                    if not same and not overflow:
+                        bad.append(f"{opname}{c12._fmt(sig)}: on the narrow column {res[0][0]} ({res[0][1]}), on the widened data {res[1][0]} ({res[1][1]})")
+                        break
+    return _enum_outcome("Polars: operators on narrow columns agree with the same data widened to 64 bit (Python literals are 64-bit values)", n, bad)
+
+
 def numeric_run_factory(backend):
     """numeric functions whose documented value is an uninterpreted function in the symbolic model (rounding, powers,
     transcendental functions): Python's math on sampled values (no rounding ties, inside the real domain)"""
@@ -776,6 +836,8 @@ def obligations(tier):
     for backend in BACKENDS:
         obs.append(Obligation(f"C03/LIB-num/{backend}", "LIB", f"rounding / power / transcendental functions on {backend} against Python's math", numeric_run_factory(backend), functions=[disp[backend]],
                               bounded="31 numeric expressions on 8 rows (negative values, nulls, no rounding ties); native execution", tags=("cross_backend",)))
+    obs.append(Obligation("C03/NW/narrow_types/polars", "NW", "operators on Int8 / Int32 / UInt16 / Float32 columns (with columns and Python literals) agree with the widened data", narrow_types_run, functions=[disp["polars"]],
+                          bounded="every element-wise operator x signatures of arity <= 2 with a narrow column on one 3-row frame (0.1, 3e38 as Float32; 100 as Int8; 2**30 as Int32)"))
     obs.append(Obligation("C03/E3/case_reuse", "E3", "case expressions built from a shared open prefix (native, Python oracle)", case_reuse_run, functions=[H.fn_info(H.col_expr_mod.WhenClause.then), H.fn_info(H.col_expr_mod.CaseExpr.when), H.fn_info(H.col_expr_mod.CaseExpr.otherwise), H.fn_info(H.col_expr_mod.ColExpr.map)],
                           bounded="9 case / map expressions (shared prefixes, constant conditions) x 2 backends on one 6-row column"))
     obs.append(Obligation("C03/B/method_binding", "B", "methods, accessors, reflected operators and free functions are bound to their operators with the arguments in order", binding_run,
